@@ -1410,13 +1410,9 @@ class Interp:
                     outs.append((s, IntV(A.scale(1 << Bl.c), ty)))
                     continue
                 if Bl.is_const():
-                    bits = B.to_bits(A, w)
-                    r = None
-                    if bits is not None:
-                        r = B.from_bits(B.b_shl(bits, Bl.c) if op == "Shl" else B.b_shr(bits, Bl.c))
-                    outs.append((s, IntV(r, ty) if r is not None else self.fresh_int("shift", ty)))
+                    outs.append((s, self.const_shift(s, op, a, Bl.c, ty, w)))
                 else:
-                    outs.append((s, self.symbolic_shift(s, op, a, b, e)))
+                    outs.extend(self.shift_cases(s, op, a, b, e, ty, w))
             return outs
         if op in ("BitAnd", "BitOr", "BitXor"):
             ba, bb = B.to_bits(A, w), B.to_bits(Bl, INT_BITS.get(b.ty, 64))
@@ -1496,6 +1492,44 @@ class Interp:
                     return [(st, IntV(r, ty))]
         self.note("opaque-binop", e, f"signed {A} {op} {Bl}")
         return [(st, self.fresh_int("sbinop", ty))]
+
+    def const_shift(self, s, op, a, c, ty, w):
+        A = a.l
+        mx = INT_MAX.get(ty, 2**64 - 1)
+        if c == 0:
+            return IntV(A, ty)
+        if op == "Shl" and not A.is_const() and 0 < c < w and solver.entails(s.pc, flit(le(A.scale(1 << c), mx))):
+            return IntV(A.scale(1 << c), ty)
+        bits = B.to_bits(A, w)
+        r = None
+        if bits is not None:
+            r = B.from_bits(B.b_shl(bits, c) if op == "Shl" else B.b_shr(bits, c))
+        return IntV(r, ty) if r is not None else self.fresh_int("shift", ty)
+
+    SHIFT_SPLIT = 9
+
+    def shift_cases(self, st, op, a, b, e, ty, w):
+        """shift by a non-constant amount: when the path condition confines the amount to a few values (a bit count
+        inside one byte), one exact constant shift per value; a deterministic opaque term otherwise"""
+        Bl = b.l
+        lo = hi = None
+        for k in range(0, w):
+            if solver.entails(st.pc, flit(ge(Bl, k))):
+                lo = k
+            else:
+                break
+        lo = lo or 0
+        for k in range(lo, min(w, lo + self.SHIFT_SPLIT)):
+            if solver.entails(st.pc, flit(le(Bl, k))):
+                hi = k
+                break
+        if hi is None:
+            return [(st, self.symbolic_shift(st, op, a, b, e))]
+        outs = []
+        for c in range(lo, hi + 1):
+            for s in self.assume(st, flit(eq(Bl, c))):
+                outs.append((s, self.const_shift(s, op, a, c, ty, w)))
+        return outs
 
     def symbolic_shift(self, st, op, a, b, e):
         """shift by a non-constant amount: a deterministic opaque term (same inputs, same atom)"""
